@@ -41,7 +41,7 @@ var plans = map[string]*plan{
 		Rule: "a case is one workload (packages x selection x parameters x -concurrency, drawn from the seed) executed under 4 (quick) or 6 (thorough) (map policy, schedule) variants; distinct = distinct hash of (flags, visits, applied map permutations, hand-over sequence); non-trivial = at least one applied permutation differing from canonical at a map site with >= 2 entries, or a switch between two live checker tasks"},
 	"C03": {Race: false, Quick: 400, Thorough: 12000, Procs: 16, XProc: 16, Level: "exploration",
 		Rule: "a case is one history of package visits (1..12 quick, 1..40 thorough; permuted/subset/repeated files) applied to one long-lived CLI program; distinct = distinct hash of (flags, history, schedule); non-trivial = history length >= 2 with >= 1 diagnostic printed after the first visit"},
-	"C04": {Race: true, Quick: 240, Thorough: 6000, Procs: 16, XProc: 16, Level: "exploration",
+	"C04": {Race: true, Quick: 360, Thorough: 6000, Procs: 16, XProc: 16, Level: "exploration",
 		Rule: "a case is one seeded schedule of the CLI's checkFile (N checker goroutines, semaphore, barrier) or of K parallel analyzer passes, in a -race build whose context switches are invisible to the race detector; distinct = distinct hash of the hand-over sequence (from,to,site) plus workload; non-trivial = at least one switch that suspends a started, unfinished checker task in favour of another checker task"},
 	"C05": {Race: false, Quick: 420, Thorough: 6000, Procs: 16, XProc: 12, Level: "exploration",
 		Rule: "3 of 4 cases: every selected checker applied in a seeded order (name, reverse, shuffle) to the same tree of one corpus package, with a fingerprint of syntax trees, types.Info, shared context, checker registry and astcast sentinels after every Check, and diagnostics (with fixes) compared with the run-alone reference - the first 2 rounds sweep all registered checkers over all corpus packages; 1 of 4 cases: the real CLI under a non-serial seeded schedule with fingerprints taken at context switches; distinct = distinct hash of (flags, visits, order | hand-over sequence); non-trivial = >= 2 checkers on one tree with >= 1 diagnostic, or >= 1 interleaving switch with >= 1 switch-point fingerprint"},
@@ -59,6 +59,10 @@ func die2(format string, args ...any) {
 }
 
 func main() {
+	selfTest := len(os.Args) >= 3 && os.Args[1] == "selftest"
+	if selfTest {
+		os.Args[1] = "check"
+	}
 	if len(os.Args) < 3 || os.Args[1] != "check" {
 		fmt.Fprintln(os.Stderr, "usage: gcsim check <ID> [quick|thorough] [--replay file]")
 		os.Exit(2)
@@ -110,7 +114,9 @@ func main() {
 
 	c := &checkCtx{ID: id, Tier: tier, Seed: seed, Plan: pl, Build: bi, Scratch: scratch}
 	var code int
-	if replay != "" {
+	if selfTest {
+		code = c.selftest()
+	} else if replay != "" {
 		code = c.replay(replay)
 	} else {
 		code = c.check()
